@@ -761,7 +761,18 @@ func Run(r *mc.Run) {
 			}
 			run := func(q *Program) {
 				n++
-				oc, fs, wk := h.runProgram(q)
+				var oc, wk string
+				var fs []finding
+				if m, where := mc.CatchStack(func() { oc, fs, wk = h.runProgram(q) }); m != "" {
+					// e.g. a balance that aliases a pooled integer of the interpreter is rewritten (even torn) by later
+					// execution: reading the state then fails
+					pc := *q
+					r.Report(mc.Violation{Sig: "panic while executing a program or reading the state it left: " + normMsg(m) + " at " + where, Detail: q.String() + "\n" + m, Input: &pc})
+					hs[w] = nil // the harness instance may be half-way through: rebuild
+					h = newHarness(func(n string) { r.Count(n, 1) })
+					hs[w] = h
+					return
+				}
 				if r.Distinct(oc+"|"+wk) && n%50 == 1 {
 					r.Sample(q.String() + " => " + oc)
 				}
